@@ -28,6 +28,11 @@ MANIFEST = dict(
          "logarithms of the exact rationals computed by the same Lean definitions at K=Rat, and with an independent "
          "60-digit mpmath evaluation (oracle: three-way agreement, finiteness, volumes start at 0 and strictly decrease, "
          "shift invariance measured directly on the real functions, reads of a finished state independent of their order). "
+         "SOURCE TIE: _NSIntegralState.increment is translated from the current source on every run (harness/pylog2lean.py: "
+         "log space -> linear domain statement by statement, logarithm and exponential uninterpreted; Gen/Increment.lean) and "
+         "increment_source_eq_quadrature_model / increment_source_eq_information_model re-prove, for every field, state, "
+         "likelihood, live count and both expectations, that the generated definition is the quadrature model's and the "
+         "information model's step - the theorems are about the source text as it is now. "
          "INFORMATION AND UNCERTAINTY (Model/Information.lean, the recursion of increment with the logarithm as a parameter): "
          "for every logarithm function, ordered field and length >= 2 the accumulated value is the textbook information "
          "H = sum p_i lg L_i - lg Z (info_eq_textbook); over R, H >= -log(1 - X_N) >= 0 by Gibbs' inequality, hence "
@@ -39,13 +44,47 @@ MANIFEST = dict(
          "generated inputs, not proved. exp(-1/n) enters the Rat model as a 128-bit dyadic (the theorems take any shrinkage "
          "in (0,1)). The logarithm enters the information model as a table of 60-digit mpmath values (the theorems hold for every "
          "function lg, the sign theorems for the real logarithm). The plotting gradients of the state are not modelled.",
-    technique="Lean 4 proof (induction over lists, ordered-field algebra) + differential correspondence against the exact "
-              "Rat execution of the same definitions + mpmath oracle",
+    technique="Lean 4 proof (induction over lists, ordered-field algebra) + source-to-Lean translation of "
+              "_NSIntegralState.increment (log space -> linear domain) re-proved equal to the model on every run + differential "
+              "correspondence against the exact Rat execution of the same definitions + mpmath oracle",
     ref="5/C02")
 
 RTOL = 1e-9          # |delta| <= RTOL * max(1, |value|)   (the property's "floating-point accuracy")
 MTOL = 1e-25         # Lean Rat model vs 60-digit mpmath reference
 TBITS = 128          # exp(-1/n) handed to the Rat model as floor(exp(-1/n) 2^TBITS) / 2^TBITS
+
+
+def gen(ctx):
+    """regenerate Gen/Increment.lean: `_NSIntegralState.increment` translated statement by statement from log space into the
+    model's linear domain by harness/pylog2lean.py; C02.increment_source_eq_quadrature_model / _information_model (generated
+    definition commutes with the projections onto the two hand-written models) are re-proved on every run."""
+    from . import core, pylog2lean as P, py2lean
+    spec = P.LogSpec(
+        source="nessai/evidence.py", cls="_NSIntegralState", func="increment", name="increment", struct="NSt K",
+        fields=[("base_nlive", "base", P.NAT), ("logZ", "Z", P.LOG), ("logw", "w", P.LOG), ("logLs", "Ls", "LIST LOG"),
+                ("log_vols", "Xs", "LIST LOG"), ("nlive", "ns", "LIST NAT"), ("info", "info", "LIST LIN")],
+        params=[("logL", "logL", P.LOG), ("nlive", "nlive", P.OPTNAT)],
+        locals_={"oldZ": P.LOG, "logt": P.LOG, "Wt": P.LOG, "prev_info": P.LIN, "info": P.LIN},
+        flags={"self.expectation == 'logt'": ("isLogt", "expectation == 'logt'")},
+        ignore_attrs=["gradients"], ignore_flags=["self.track_gradients"],
+        doc="`lg`, `ex`: the logarithm / exponential (arbitrary functions); `isLogt`: `self.expectation == 'logt'`.")
+    try:
+        lean, info = P.translate(core.REPO, spec)
+    except py2lean.TranslationError as e:
+        ctx.broken(f"translator: _NSIntegralState.increment: {e}",
+                   "Gen/Increment.lean was left as it was (the theorems are about the last translatable source)")
+        return
+    except (OSError, SyntaxError) as e:
+        ctx.broken(f"translator: cannot read/parse the source: {e}")
+        return
+    text = ("import NessaiVerif.Model.Increment\n"
+            "/-\nGENERATED by harness/pylog2lean.py (harness/c02.py gen) from the CURRENT nessai source — do not edit.\n"
+            "C02: `_NSIntegralState.increment`, log space -> linear domain (dictionary in harness/pylog2lean.py).\n-/\n"
+            "namespace NessaiVerif.Gen.Increment\nopen NessaiVerif NessaiVerif.Incr\n\n"
+            "variable {K : Type} [Add K] [Sub K] [Mul K] [Div K] [Neg K] [OfNat K 0] [OfNat K 1] [NatCast K] [DecidableEq K]\n\n"
+            + lean + "\nend NessaiVerif.Gen.Increment\n")
+    changed = py2lean.write_if_changed(core.LEAN / "NessaiVerif" / "Gen" / "Increment.lean", text)
+    ctx.extra["generated"] = {"increment": dict(source=spec.source, rewritten=changed, **info)}
 
 
 def _mp():
